@@ -96,6 +96,9 @@ theorem insert_prefix {s : Store} {pt sch : Levels} {tbls : List (Bytes × Level
     ∃ s3, Same s s3 ∧ Cat s3 pt sch tbls ∧
       insert table cols vals s =
         (if (colsOf schema cols).length != vals.length then throw .colCountMismatch else
+          match checkColumns schema (colsOf schema cols) with
+          | some e => throw e
+          | none =>
           encodeRow schema ((colsOf schema cols).zip vals).reverse >>= fun buf =>
           btInsert ⟨rootOff t⟩ buf >>= fun r =>
             if r.1.root != rootOff t then
@@ -107,10 +110,33 @@ theorem insert_prefix {s : Store} {pt sch : Levels} {tbls : List (Bytes × Level
   obtain ⟨s3, e3, hs3, hc3⟩ := relationSchema_cat hc2 table schema hsch
   refine ⟨s3, (hs1.trans hs2).trans hs3, hc3, ?_⟩
   rw [insert_eq, bind_ok e1, bind_ok e2, bind_ok e3]
+  rfl
 
 /-- the errors with which `Store.insert` refuses a row -/
 def RowRefusal (e : SErr) : Prop :=
-  e = .colCountMismatch ∨ e = .typeMismatch ∨ e = .intOutOfRange ∨ e = .rowTooLarge
+  e = .colCountMismatch ∨ e = .typeMismatch ∨ e = .intOutOfRange ∨ e = .rowTooLarge ∨
+    e = .fieldNotFound ∨ e = .fieldAmbiguous
+
+theorem RowRefusal.of_checkColumns {schema : List FieldDef} {cs : List String} {e : SErr}
+    (h : checkColumns schema cs = some e) : RowRefusal e := by
+  rcases checkColumns_some h with rfl | rfl
+  · exact .inr (.inr (.inr (.inr (.inl rfl))))
+  · exact .inr (.inr (.inr (.inr (.inr rfl))))
+
+/-- a row whose arity is right but whose column list fails `checkColumns` is refused with the error of
+the check, before the row is looked at; nothing the engine can see changes -/
+theorem insert_names_refused_cat {s : Store} {pt sch : Levels} {tbls : List (Bytes × Levels)}
+    (h : Cat s pt sch tbls) (table : Bytes) (t : Levels) (ht : (table, t) ∈ tbls) (schema : List FieldDef)
+    (hsch : schemaOf sch table = some schema) (cols : List String) (vals : List Val) (e : SErr)
+    (hlen : (colsOf schema cols).length = vals.length)
+    (hcc : checkColumns schema (colsOf schema cols) = some e) :
+    ∃ s', insert table cols vals s = .err e s' ∧ Same s s' ∧ Cat s' pt sch tbls := by
+  obtain ⟨s3, hs3, hc3, hrun⟩ := insert_prefix h table t ht schema hsch cols vals
+  refine ⟨s3, ?_, hs3, hc3⟩
+  have hb : ((colsOf schema cols).length != vals.length) = false := by simp [hlen]
+  rw [hrun]
+  simp only [hb, Bool.false_eq_true, if_false, hcc]
+  rfl
 
 /-- **A row the spec refuses is refused by the model, and the abstraction is unchanged.**  Nothing the
 engine can see changes; the allocation frontier and the page-table root stay; the row-id counter
@@ -131,6 +157,13 @@ theorem insert_refused_abs {s : Store} {pt sch : Levels} {tbls : List (Bytes × 
       buf.length > c_maxValueSize at hcases
   by_cases hlen : (colsOf schema (cols.map Engine.bytesToName)).length = vals.length
   · have hb : ((colsOf schema (cols.map Engine.bytesToName)).length != vals.length) = false := by simp [hlen]
+    cases hcc : checkColumns schema (colsOf schema (cols.map Engine.bytesToName)) with
+    | some ec =>
+      -- a column list naming an unknown column, or one column twice
+      obtain ⟨s', he, hs', hc'⟩ := insert_names_refused_cat h.cat table t ht schema hsch _ vals ec hlen hcc
+      exact ⟨ec, s', he, RowRefusal.of_checkColumns hcc, ⟨hc', h.tabs⟩, hs'.1, by rw [hs'.2],
+        by rw [hs'.2]; exact Nat.le_refl _⟩
+    | none =>
     rcases hcases with hne | ⟨err, henc⟩ | ⟨buf, henc, hsz⟩
     · exact absurd hlen hne
     · -- a value that does not encode
@@ -141,7 +174,7 @@ theorem insert_refused_abs {s : Store} {pt sch : Levels} {tbls : List (Bytes × 
         cases err <;> rfl
       refine ⟨serrOf err, s3, ?_, ?_, ⟨hc3, h.tabs⟩, hs3.1, by rw [hs3.2], by rw [hs3.2]; exact Nat.le_refl _⟩
       · rw [hrun]
-        simp only [hb, Bool.false_eq_true, if_false]
+        simp only [hb, Bool.false_eq_true, if_false, hcc]
         rw [bind_err he]
       · rcases encodeTuple_err _ _ _ henc with rfl | rfl
         · exact .inr (.inl rfl)
@@ -162,9 +195,9 @@ theorem insert_refused_abs {s : Store} {pt sch : Levels} {tbls : List (Bytes × 
         simp only [hik]
         rfl
       have hview : view (bumpCounters s4) = view s3 := funext fun off => hv4 off
-      refine ⟨.rowTooLarge, bumpCounters s4, ?_, .inr (.inr (.inr rfl)), ⟨?_, h.tabs⟩, ?_, ?_, ?_⟩
+      refine ⟨.rowTooLarge, bumpCounters s4, ?_, .inr (.inr (.inr (.inl rfl))), ⟨?_, h.tabs⟩, ?_, ?_, ?_⟩
       · rw [hrun]
-        simp only [hb, Bool.false_eq_true, if_false]
+        simp only [hb, Bool.false_eq_true, if_false, hcc]
         rw [bind_ok he, bind_err hbt]
       · exact hc3.of_view hview hn4 k2 (by show s3.hdr.lastKey ≤ s4.hdr.lastKey + 1; omega)
       · rw [hview, hs3.1]
@@ -175,6 +208,38 @@ theorem insert_refused_abs {s : Store} {pt sch : Levels} {tbls : List (Bytes × 
   · -- wrong arity
     have hb : ((colsOf schema (cols.map Engine.bytesToName)).length != vals.length) = true := by simpa using hlen
     refine ⟨.colCountMismatch, s3, ?_, .inl rfl, ⟨hc3, h.tabs⟩, hs3.1, by rw [hs3.2], by rw [hs3.2]; exact Nat.le_refl _⟩
+    rw [hrun]
+    simp only [hb, if_true]
+    rfl
+
+/-- **A column list the spec refuses** (a name that is not a column of the table, or a name used
+twice) **is refused by the model, and the abstraction is unchanged**: with `colCountMismatch` when the
+number of values is wrong too, else with the error of `checkColumns`. -/
+theorem insert_badNames_abs {s : Store} {pt sch : Levels} {tbls : List (Bytes × Levels)} {sdb : Spec.SDB}
+    (h : Abs s pt sch tbls sdb) (table : Bytes) (t : Levels) (ht : (table, t) ∈ tbls)
+    (schema : List FieldDef) (hsch : schemaOf sch table = some schema)
+    (cols : List Bytes) (vals : List Val)
+    (hnames : Spec.namesOK (absTable table schema t) (cols.map Spec.nameStr) = false) :
+    ∃ e s', insert table (cols.map Engine.bytesToName) vals s = .err e s' ∧
+      (e = .colCountMismatch ∨ e = .fieldNotFound ∨ e = .fieldAmbiguous) ∧
+      Abs s' pt sch tbls sdb ∧ Same s s' := by
+  have hne : (cols.map Engine.bytesToName).isEmpty = false := by
+    cases cols with
+    | nil => simp [Spec.namesOK] at hnames
+    | cons c rest => rfl
+  have hcols : colsOf schema (cols.map Engine.bytesToName) = cols.map Spec.nameStr := by
+    unfold colsOf
+    rw [hne]
+    rfl
+  obtain ⟨ec, hcc, hkind⟩ := not_namesOK_checkColumns hnames
+  change checkColumns schema (cols.map Spec.nameStr) = some ec at hcc
+  by_cases hlen : (colsOf schema (cols.map Engine.bytesToName)).length = vals.length
+  · obtain ⟨s', he, hs', hc'⟩ := insert_names_refused_cat h.cat table t ht schema hsch _ vals ec hlen
+      (by rw [hcols]; exact hcc)
+    exact ⟨ec, s', he, .inr hkind, ⟨hc', h.tabs⟩, hs'⟩
+  · obtain ⟨s3, hs3, hc3, hrun⟩ := insert_prefix h.cat table t ht schema hsch (cols.map Engine.bytesToName) vals
+    have hb : ((colsOf schema (cols.map Engine.bytesToName)).length != vals.length) = true := by simpa using hlen
+    refine ⟨.colCountMismatch, s3, ?_, .inl rfl, ⟨hc3, h.tabs⟩, hs3⟩
     rw [hrun]
     simp only [hb, if_true]
     rfl
@@ -209,17 +274,33 @@ theorem specInsert_none_of_bad_row (sdb : Spec.SDB) (table : Bytes) (cols : List
   unfold Spec.specInsert
   rw [hfind]
   simp only [Option.bind_eq_bind, Option.bind_some]
-  rw [mapM_none_of_mem _ rows hbad]
+  split
+  · rfl
+  · rw [mapM_none_of_mem _ rows hbad]
+    rfl
+
+/-- the spec refuses a statement (with at least one row) whose column list names an unknown column or
+one column twice -/
+theorem specInsert_none_of_bad_names (sdb : Spec.SDB) (table : Bytes) (cols : List Bytes)
+    (r : List Val) (rest : List (List Val))
+    (st : Spec.STable) (hfind : Spec.findTable sdb table = some st)
+    (hbad : Spec.namesOK st (cols.map Spec.nameStr) = false) :
+    Spec.specInsert sdb table cols (r :: rest) = none := by
+  unfold Spec.specInsert
+  rw [hfind]
+  simp only [Option.bind_eq_bind, Option.bind_some, hbad, List.isEmpty_cons]
   rfl
 
 /-- **INSERT, first row refused** (C14 at the level of the spec).  The spec refuses the statement
-because the table is unknown or because `rowOf` refuses the FIRST row: the model's `evalInsert` fails
-with the store's error, the log is untouched and the store abstracts to the same spec database. -/
+because the table is unknown, because `rowOf` refuses the FIRST row, or because the column list names a
+column the table does not have or one column twice: the model's `evalInsert` fails with the store's
+error, the log is untouched and the store abstracts to the same spec database. -/
 theorem evalInsert_refused_spec (db : Engine.DB) (pt sch : Levels) (tbls : List (Bytes × Levels))
     (sdb : Spec.SDB) (h : Abs db.store pt sch tbls sdb) (table : Bytes) (cols : List Bytes)
     (r : List Val) (rest : List (List Val))
     (hbad : (Spec.findTable sdb table = none ∧ table ≠ sysPages ∧ table ≠ sysSchema) ∨
-      ∃ st, Spec.findTable sdb table = some st ∧ Spec.rowOf st cols r = none) :
+      ∃ st, Spec.findTable sdb table = some st ∧
+        (Spec.rowOf st cols r = none ∨ Spec.namesOK st (cols.map Spec.nameStr) = false)) :
     Spec.specInsert sdb table cols (r :: rest) = none ∧
     ∃ e db', Engine.evalInsert db table cols (r :: rest) = .err (.store e) db' ∧
       (e = .tableNotExist ∨ RowRefusal e) ∧ db'.wal = db.wal ∧ Abs db'.store pt sch tbls sdb := by
@@ -242,15 +323,26 @@ theorem evalInsert_refused_spec (db : Engine.DB) (pt sch : Levels) (tbls : List 
     rw [hfind] at hf
     simp only [Option.some.injEq] at hf
     subst hf
-    obtain ⟨e, s', he, hre, habs, _⟩ := insert_refused_abs h table t ht schema hsch cols r hrow
-    refine ⟨specInsert_none_of_bad_row sdb table cols _ _ hfind ⟨r, List.mem_cons_self, hrow⟩,
-      e, { db with store := s' }, ?_, .inr hre, rfl, habs⟩
-    exact evalInsert_go_err db table cols r rest db.store s' [] 0 _ he
+    rcases hrow with hrow | hnames
+    · obtain ⟨e, s', he, hre, habs, _⟩ := insert_refused_abs h table t ht schema hsch cols r hrow
+      refine ⟨specInsert_none_of_bad_row sdb table cols _ _ hfind ⟨r, List.mem_cons_self, hrow⟩,
+        e, { db with store := s' }, ?_, .inr hre, rfl, habs⟩
+      exact evalInsert_go_err db table cols r rest db.store s' [] 0 _ he
+    · obtain ⟨e, s', he, hre, habs, _⟩ := insert_badNames_abs h table t ht schema hsch cols r hnames
+      refine ⟨specInsert_none_of_bad_names sdb table cols r rest _ hfind hnames,
+        e, { db with store := s' }, ?_, .inr ?_, rfl, habs⟩
+      · exact evalInsert_go_err db table cols r rest db.store s' [] 0 _ he
+      · rcases hre with rfl | rfl | rfl
+        · exact .inl rfl
+        · exact .inr (.inr (.inr (.inr (.inl rfl))))
+        · exact .inr (.inr (.inr (.inr (.inr rfl))))
 
 /-- **INSERT, a later row refused** (the known finding).  The rows `good` are accepted by the spec's
 `rowOf`, the next row `bad` is not: the spec refuses the whole statement (nothing changes), but the
 model's `evalInsert` fails only AFTER having applied the rows `good` to the store: the log is
-untouched, the store abstracts to `sdb` WITH the rows of `good` appended to the table. -/
+untouched, the store abstracts to `sdb` WITH the rows of `good` appended to the table.  (The column
+list is one the spec accepts, `hnames`: a bad column list is refused at the first row, before
+anything is applied - `evalInsert_refused_spec`.) -/
 theorem evalInsert_kth_refused_spec (db : Engine.DB) (pt sch : Levels) (tbls : List (Bytes × Levels))
     (sdb : Spec.SDB) (h : Abs db.store pt sch tbls sdb)
     (table : Bytes) (t : Levels) (ht : (table, t) ∈ tbls)
@@ -259,6 +351,7 @@ theorem evalInsert_kth_refused_spec (db : Engine.DB) (pt sch : Levels) (tbls : L
     (goodRows : List (List Val)) (hvalid : ∀ r ∈ good, ∀ v ∈ r, ValidVal v)
     (hgood : good.mapM (Spec.rowOf (absTable table schema t) cols) = some goodRows)
     (hbad : Spec.rowOf (absTable table schema t) cols bad = none)
+    (hnames : Spec.namesOK (absTable table schema t) (cols.map Spec.nameStr) = true)
     (hrun : InsRunOK schema (cols.map Engine.bytesToName) t db.store.hdr.lastKey db.store.hdr.nextLSN
       db.store.hdr.nextFree good) :
     Spec.specInsert sdb table cols (good ++ bad :: rest) = none ∧
@@ -272,7 +365,8 @@ theorem evalInsert_kth_refused_spec (db : Engine.DB) (pt sch : Levels) (tbls : L
   subst hsch'
   refine ⟨specInsert_none_of_bad_row sdb table cols _ _ hfind ⟨bad, by simp, hbad⟩, ?_⟩
   obtain ⟨s1, ptF, t', logs, ego, _, habs, _⟩ := evalInsert_go_spec db table cols sch schema hsch (bad :: rest)
-    good goodRows db.store pt tbls t sdb [] 0 h ht hvalid hgood hrun
+    good goodRows db.store pt tbls t sdb [] 0 h ht hvalid hgood
+    (.inr (checkColumns_of_namesOK (absTable table schema t) cols (h.tabs.names_nodup ht hsch) hnames)) hrun
   obtain ⟨e, s', he, hre, habs', _⟩ := insert_refused_abs habs table t' (mem_setTable_self t' ht) schema hsch
     cols bad hbad
   refine ⟨e, { db with store := s' }, ptF, t', ?_, hre, rfl, habs'⟩
